@@ -38,8 +38,8 @@ func init() {
 	register("c06s", func(a []Tok) []Tok {
 		secure := a[0].I == 1
 		var mgr cert.TlsConfig
-		if a[1].I == 1 {
-			mgr = serverCfg("good", false)
+		if a[1].I >= 1 {
+			mgr = serverCfg("good", a[1].I == 2) // 2: the server also requires a client certificate
 		} else {
 			mgr = serverCfg("none", false)
 		}
